@@ -27,7 +27,8 @@ ASSUMPTIONS = [
 ]
 
 POSITIONS = ['first', 'after_pass', 'after_fail', 'after_skip', 'in_subtest', 'in_teardown', 'in_branch']
-RESULTS = ['NONE', 'CONTINUE', 'FAIL_AND_CONTINUE', 'SKIP', 'REPEAT', 'STOP', 'FAIL_SUBTEST', 'INVALID', 'RAISE_O']
+RESULTS = ['NONE', 'CONTINUE', 'FAIL_AND_CONTINUE', 'SKIP', 'REPEAT', 'STOP', 'FAIL_SUBTEST', 'INVALID', 'INVALID_FALSE', 'INVALID_ZERO',
+           'INVALID_EMPTY', 'RAISE_O']
 DIAGSETS = {
     'none': [],
     'pass': [{'emit': [[1, False, False]], 'af': False}],
@@ -197,7 +198,7 @@ def run_job(job, acct):
       for sig, detail in r.violations:
         (acct.known if sig in known else acct.violation)(sig, c, detail)
     if job['shard'] == 0 and job['complete']:
-      acct.exhaustive_parts.append('decision table: 48 option sets x 27^2 two-invocation behaviours x 5 diagnoser sets x 4 positions')
+      acct.exhaustive_parts.append('decision table: 48 option sets x 36^2 two-invocation behaviours x 5 diagnoser sets x 4 positions')
 
 
 def replay(case):
